@@ -904,6 +904,7 @@ class SimplicialComplex(Hypergraph):
         self.add_weighted_simplices_from = frozen
         self.remove_simplex_id = frozen
         self.remove_simplex_ids_from = frozen
+        self.remove_node_from_edge = frozen
         self.double_edge_swap = frozen
         self.random_edge_shuffle = frozen
         self.clear = frozen
